@@ -253,11 +253,23 @@ Definition ts_int_path (text : list ascii) : bool :=
 Definition strip_bigint (text : list ascii) : list ascii :=
   if ends_with ["n"%char] text then removelast text else text.
 
-(* hex_e_float: a hex literal containing the digit e/E takes the float() path and is dropped (code);
-   bigint_dropped: the BigInt literal 10n is not parsed by int() and is dropped (code) *)
-Definition ts_extract (hex_e_float bigint_dropped : bool) (text : list ascii) : option num :=
-  let text := if bigint_dropped then text else strip_bigint text in
-  if ts_int_path text || (negb hex_e_float && is_hex_prefixed text)
+(* `if text.endswith(S): text = text[:-len(S)]` for the suffix found in the source (none in the unrepaired code) *)
+Definition strip_suffix_code (text : list ascii) : list ascii :=
+  match ts_bigint_suffixes with
+  | [] => text
+  | s :: _ => if ends_with (chars s) text then firstn (List.length text - List.length (chars s)) text else text
+  end.
+
+(* `lowered.startswith((P...))` for the prefixes found in the source (none in the unrepaired code) *)
+Definition code_int_prefixed (text : list ascii) : bool :=
+  existsb (fun p => prefix_l (chars p) (map lower_char text)) ts_int_prefixes.
+
+(* prefixes_from_code / bigint_from_code = true: the prefix test and the suffix stripping exactly as found in the source;
+   false: what the property demands (a 0x literal always takes the int() path; the BigInt suffix n is stripped).
+   Before the repair the source had neither: 0xFE took the float() path and 10n made int() fail, both were dropped. *)
+Definition ts_extract (prefixes_from_code bigint_from_code : bool) (text : list ascii) : option num :=
+  let text := if bigint_from_code then strip_suffix_code text else strip_bigint text in
+  if ts_int_path text || (if prefixes_from_code then code_int_prefixed text else is_hex_prefixed text)
   then option_map (fun z => (z, 0%Z)) (py_int0 text)
   else py_float text.
 
@@ -272,10 +284,17 @@ Fixpoint strip_suffix (sufs : list string) (text : list ascii) : list ascii :=
 
 Definition is_float_suffix (s : string) : bool := prefix_l ["f"%char] (chars s).
 
-(* hex_suffix_clash: the suffix table is applied to every literal, so 0x1f32 loses "f32" (code);
-   off: a base-prefixed literal can only carry an integer suffix *)
-Definition rs_suffix_table (hex_suffix_clash : bool) (text : list ascii) : list string :=
-  if hex_suffix_clash then rs_suffixes
+(* `prefixed = text[:2].lower() in (P...)`, `if prefixed and suffix.startswith(K): continue`, as found in the source
+   (no marker and no skipped suffix in the unrepaired code, where 0x1f32 lost "f32") *)
+Definition code_prefixed (text : list ascii) : bool :=
+  existsb (fun m => list_eqb (map lower_char (firstn 2 text)) (chars m)) rs_prefixed_markers.
+Definition code_skipped (s : string) : bool := existsb (fun k => prefix_l (chars k) (chars s)) rs_prefixed_skip.
+
+(* table_from_code = true: the suffixes tried are those the source tries; false: a base-prefixed literal can only carry an
+   integer suffix *)
+Definition rs_suffix_table (table_from_code : bool) (text : list ascii) : list string :=
+  if table_from_code
+  then (if code_prefixed text then filter (fun s => negb (code_skipped s)) rs_suffixes else rs_suffixes)
   else if is_prefixed text then filter (fun s => negb (is_float_suffix s)) rs_suffixes else rs_suffixes.
 
 Definition remove_us (text : list ascii) : list ascii := filter (fun c => negb (Ascii.eqb c c_us)) text.
